@@ -483,6 +483,134 @@ def py_signature(o):
 
 
 # ----------------------------------------------------------------------------
+# (a'') staged studies: parameters through the REAL expansion path
+# ----------------------------------------------------------------------------
+# ParameterGenerator -> Combination -> Study.stage() -> ExecutionGraph.add_step
+# -> write_status.  The parameters each row must show are read off what was
+# actually SUBMITTED: every step's command is `<<K=$(K)>> ..` for the parameters
+# it uses, so the instance's expanded command (substituted by Combination.apply,
+# not by get_param_values) names its values.
+QUICK_STAGED, THOROUGH_STAGED = 14, 160
+PVALUES = [0, 0.0, False, "", 0, "", False, 1, 2, -1, 2.5, True, None, "a", "b c", "0", "no", "x.y", "é", 10 ** 6]
+FIXED_STAGED = {"params": [["X", [0, 1, 0]], ["Y", ["", "a", "b"]], ["Z", [False, 0.0, True]]],
+                "steps": [{"name": "prep", "uses": ["X"], "depends": []},
+                          {"name": "run", "uses": ["X", "Y"], "depends": ["prep"]},
+                          {"name": "post", "uses": ["X", "Y", "Z"], "depends": ["run"]},
+                          {"name": "only-z", "uses": ["Z"], "depends": []},
+                          {"name": "plain", "uses": [], "depends": []}],
+                "dynseed": 7}
+
+
+def gen_staged(rng):
+    nk = rng.choice([1, 2, 2, 3])
+    m = rng.choice([1, 2, 3, 4])
+    keys = rng.sample(["X", "Y", "Z", "SIZE", "N_ITER"], nk)
+    params = []
+    for k in keys:
+        vals, seen = [], set()
+        while len(vals) < m:
+            v = rng.choice(PVALUES)
+            # distinct renderings within one parameter: str(v) is what labels, commands and cells show
+            if str(v) not in seen or rng.random() < 0.15:
+                seen.add(str(v))
+                vals.append(v)
+        params.append([k, vals])
+    steps = []
+    for i in range(rng.choice([1, 2, 3])):
+        add = [k for k in keys if rng.random() < 0.6]
+        chain = i > 0 and rng.random() < 0.7
+        # a step inherits the parameters of the step it depends on: its command names them too
+        uses = sorted(set(add) | set(steps[i - 1]["uses"] if chain else []))
+        steps.append({"name": "st%d" % i, "uses": uses, "depends": ["st%d" % (i - 1)] if chain else []})
+    if rng.random() < 0.3:
+        steps.append({"name": "free", "uses": [], "depends": []})
+    return {"params": params, "steps": steps, "dynseed": rng.randrange(10 ** 6)}
+
+
+def run_staged(spec, d):
+    """-> observation dict like run_impl's; never raises."""
+    import re
+    out = {"adj": None, "recs": None, "text": None, "parsed": "other:not-run", "error": None, "table": None}
+    try:
+        I = impl()
+        from maestrowf.datastructures.core import ParameterGenerator, Study, StudyEnvironment
+        shutil.rmtree(d, ignore_errors=True)
+        os.makedirs(d)
+        pg = ParameterGenerator()
+        for k, vals in spec["params"]:
+            pg.add_parameter(k, list(vals), "%s.%%%%" % k)
+        steps = []
+        for sd in spec["steps"]:
+            st = I["StudyStep"]()
+            st.name = sd["name"]
+            st.description = "uses " + ",".join(sd["uses"])
+            st.run["cmd"] = "echo " + " ".join("<<%s=$(%s)>>" % (k, k) for k in sd["uses"]) + " done"
+            st.run["depends"] = list(sd["depends"])
+            steps.append(st)
+        study = Study("staged", {"name": "staged", "description": "C12 staged stream"},
+                      studyenv=StudyEnvironment(), parameters=pg, steps=steps, out_path=d)
+        study.setup_workspace()
+        study.configure_study(submission_attempts=1, restart_limit=0, throttle=0)
+        study.setup_environment()
+        _, g = study.stage()
+        rng = random.Random(spec["dynseed"])
+        State = I["State"]
+        keys = list(g.values.keys())
+        idx = {k: i for i, k in enumerate(keys)}
+        recs, dyn = [], {}
+        for k in keys:
+            if k == "_source":
+                recs.append(None)
+                continue
+            rec = g.values[k]
+            dd = gen_dyn(rng, False, True)
+            dyn[k] = dd
+            rec.status = State[dd["state"]]
+            rec.jobid = list(dd["jobids"])
+            rec._num_restarts = dd["restarts"]
+            rec._submit_time, rec._start_time, rec._end_time = [_t(x) for x in dd["times"]]
+        out["adj"] = [[idx[k], [idx[c] for c in cs]] for k, cs in g.adjacency_table.items()]
+        for k in keys:
+            if k == "_source":
+                continue
+            rec, dd = g.values[k], dyn[k]
+            submitted = re.findall(r"<<(\w+)=(.*?)>>", rec.step.run["cmd"], re.S)
+            times = [rec.run_time, rec.elapsed_time, rec.time_start, rec.time_submitted, rec.time_end]
+            recs.append({"name": k, "jobids": ["{}".format(j) for j in dd["jobids"]],
+                         "ws": rec.workspace.value, "state": dd["state"], "times": [str(x) for x in times],
+                         "restarts": dd["restarts"],
+                         "params": [[a, b] for a, b in sorted(submitted)]})
+        out["recs"] = recs
+        g.write_status(d)
+        with open(os.path.join(d, "status.csv"), "r", newline="", encoding="utf-8") as f:
+            out["text"] = f.read()
+        holder = {}
+
+        def call():
+            holder["r"] = I["Conductor"].get_status(d)
+            return holder["r"]
+        out["parsed"] = canon_parsed(call)
+        out["table"] = holder.get("r")
+    except Exception as e:
+        out["error"] = "%s: %s" % (type(e).__name__, e)
+    return out
+
+
+def staged_cases(rng, n):
+    import logging
+    logging.disable(logging.CRITICAL)       # staging warns about shared instances
+    specs = [FIXED_STAGED] + [gen_staged(rng) for _ in range(max(0, n - 1))]
+    res = []
+    for k, spec in enumerate(specs):
+        o = run_staged(spec, os.path.join(WORKDIR, "staged", "s%d" % (k % 16)))
+        nodes = [{"params": r["params"], "jobids": r["jobids"]} for r in (o["recs"] or []) if r is not None]
+        res.append(({"stream": "staged", "shape": "staged/%dp%ds" % (len(spec["params"]), len(spec["steps"])),
+                     "staged": spec, "nodes": nodes, "ops": []}, o))
+    shutil.rmtree(os.path.join(WORKDIR, "staged"), ignore_errors=True)
+    return res
+
+
+# ----------------------------------------------------------------------------
 # (a') execution histories: the real status.csv after EVERY poll
 # ----------------------------------------------------------------------------
 HCASE_TY = "Rows.hcase"
@@ -800,6 +928,15 @@ def lock_structure(repo):
                             and ce.func.attr == "acquire" and isinstance(ce.func.value, ast.Name)):
                         lname = ce.func.value.id                      # with lock.acquire(..):
                         can_time_out = bool(ce.args) or any(k.arg in ("timeout", None) for k in ce.keywords)
+                        try:
+                            from translate import tcode_status
+                            mode = tcode_status.acquire_mode(ce)
+                        except Exception as e:
+                            mode = "unrecognised (%s)" % (str(e)[-80:],)
+                        if mode not in ("AcqWait", "AcqForever"):
+                            problems.append("%s: the lock is not WAITED for (acquire arguments `%s`: %s); a poll's "
+                                            "write / a read is dropped whenever the other side holds the lock"
+                                            % (where, ast.unparse(ce), mode))
                     elif isinstance(ce, ast.Name):
                         lname, can_time_out = ce.id, False            # with lock:   (blocks, never Timeout)
                     if lname is not None:
@@ -1095,6 +1232,131 @@ def check_timeout_scenario(ck, real_timeout):
 
 
 # ----------------------------------------------------------------------------
+# (b'') a status reader holds the lock BRIEFLY exactly while a poll writes
+# ----------------------------------------------------------------------------
+_BRIEF_HOLDER = ("import sys, time\nfrom filelock import FileLock\nl = FileLock(sys.argv[1])\n"
+                 "for line in sys.stdin:\n    l.acquire()\n    print('held', flush=True)\n"
+                 "    time.sleep(float(line))\n    l.release()\n    print('released', flush=True)\n")
+
+
+def brief_holder_polls(seed, hold=0.35):
+    """Three successive polls' tables (first, middle, LAST) are written by the
+    real write_status while another process holds .status.lock -- through the
+    same FileLock class Conductor.get_status uses -- for `hold` seconds (far
+    below the writer's 10 s).  After the holder has released and write_status
+    has returned, status.csv must be THAT poll's table.
+    -> (summary, problem text or None)"""
+    d = os.path.join(WORKDIR, "brief")
+    ref = os.path.join(WORKDIR, "brief_ref")
+    for x in (d, ref):
+        shutil.rmtree(x, ignore_errors=True)
+        os.makedirs(x)
+    rng = random.Random(seed + 77)
+    case = gen_case(rng, "plain", n=rng.choice([2, 3, 5]))
+    for nd in case["nodes"]:
+        nd.pop("pre", None)
+    g = build_graph(case)
+    summary = {"hold_s": hold, "polls": [], "writer_waited_s": []}
+    holder = None
+    try:
+        env = dict(os.environ, PYTHONPATH=common.REPO + ":" + common.VERIF)
+        holder = subprocess.Popen([sys.executable, "-c", _BRIEF_HOLDER, os.path.join(d, ".status.lock")],
+                                  stdin=subprocess.PIPE, stdout=subprocess.PIPE, text=True, env=env)
+
+        def text(where):
+            with open(os.path.join(where, "status.csv"), "r", newline="", encoding="utf-8") as f:
+                return f.read()
+        for poll, label in enumerate(("first", "middle", "last")):
+            for nd in case["nodes"]:
+                nd.update(gen_dyn(rng, False, True))
+                nd["restarts"] = poll          # every poll's table differs from the previous one
+            apply_records(g, case["nodes"], "final")
+            g.write_status(ref)                # what this poll's table is, without contention
+            want = text(ref)
+            holder.stdin.write("%s\n" % hold)
+            holder.stdin.flush()
+            if holder.stdout.readline().strip() != "held":
+                return summary, "the lock holder process did not take the lock"
+            t0 = time.time()
+            g.write_status(d)                  # the poll's write, while a reader holds the lock
+            summary["writer_waited_s"].append(round(time.time() - t0, 2))
+            if holder.stdout.readline().strip() != "released":
+                return summary, "the lock holder process did not release the lock"
+            got = text(d) if os.path.exists(os.path.join(d, "status.csv")) else None
+            summary["polls"].append(label + (": table written" if got == want else ": STALE / MISSING"))
+            if got != want:
+                return summary, ("the %s poll's status table was not written although the status reader held "
+                                 ".status.lock for only %.2f s (write_status returned after %.2f s): status.csv is %s"
+                                 % (label, hold, summary["writer_waited_s"][-1],
+                                    "missing" if got is None else "the previous poll's table" if poll else "not this poll's"))
+        return summary, None
+    except Exception as e:
+        return summary, "harness: %s: %s" % (type(e).__name__, e)
+    finally:
+        if holder is not None:
+            try:
+                holder.stdin.close()
+                holder.wait(5)
+            except Exception:
+                holder.kill()
+        shutil.rmtree(d, ignore_errors=True)
+        shutil.rmtree(ref, ignore_errors=True)
+
+
+# ----------------------------------------------------------------------------
+# (c'') the status command's own path: get_status -> every layout, every order
+# ----------------------------------------------------------------------------
+def _simple(x):
+    return bool(x) and all(33 <= ord(ch) < 127 for ch in x)
+
+
+def _numlike(x):
+    try:
+        float(x)
+        return True
+    except ValueError:
+        return False
+
+
+def render_path_problems(table, recs, order, title):
+    """`table` is the dict Conductor.get_status returned.  Lay it out with every
+    layout of `order` on the SAME dict, as `maestro status` does.
+    (a) rendering must not change the dict; (b) every layout shows every row:
+    name, state, job id, restart count on one line (flat, legacy) / in one step
+    block (narrow, which also shows the parameters)."""
+    import copy
+    from maestrowf import status_renderer_factory as F
+    before = copy.deepcopy(table)
+    probs = []
+    for lay in order:
+        r = F.get_renderer(lay, False, True)
+        r.layout(status_data=table, study_title=title, filter_dict=None)
+        out = r.render_to_str(width=4000)
+        if table != before or list(table.keys()) != list(before.keys()):
+            lost = [k for k in before if k not in table]
+            probs.append("laying the table out with '%s' CHANGED the dictionary Conductor.get_status returned "
+                         "(columns lost: %s)" % (lay, lost or "none; cells differ"))
+            table.clear()
+            table.update(copy.deepcopy(before))
+        units = out.split("STEP:")[1:] if lay == "narrow" else out.split("\n")
+        for rec in recs:
+            if rec is None:
+                continue
+            toks = [rec["name"], rec["state"], rec["jobids"][-1] if rec["jobids"] else "--", str(rec["restarts"])]
+            if lay == "narrow":
+                # narrow re-splits the Params cell at ';' and ':' : only values free of both are looked for
+                if not any(ch in k_ + v for k_, v in rec["params"] for ch in ";:"):
+                    toks += [v for _k, v in rec["params"]]
+            if not all(_simple(x) for x in toks):
+                continue                # only plain printable cells: rich / tabulate reflow the others
+            if lay == "legacy":
+                toks = [x for x in toks if not _numlike(x) or x.isdigit()]    # tabulate reformats floats
+            if not any(all(x in u for x in toks) for u in units):
+                probs.append("layout '%s' does not show the row of %s with %s" % (lay, rec["name"], toks[1:]))
+    return probs
+
+
+# ----------------------------------------------------------------------------
 # (c) renderers
 # ----------------------------------------------------------------------------
 def render_smoke(table, title):
@@ -1297,7 +1559,7 @@ def replay_history(c, want_x=False):
 
 def strip_case(c):
     return {k: v for k, v in c.items()
-            if k in ("stream", "shape", "nodes", "ops", "corpus_file", "hist", "poll", "status_after_poll")}
+            if k in ("stream", "shape", "nodes", "ops", "corpus_file", "hist", "poll", "status_after_poll", "staged")}
 
 
 def evaluate(tag, cases, fn, ty=None, lit=None):
@@ -1421,6 +1683,14 @@ def run(ck):
         stream = "plain" if r < 2 else ("exotic" if r >= 7 else "valid")
         cases.append(gen_case(rng, stream))
     obs = observe(cases)
+    staged = staged_cases(rng, THOROUGH_STAGED if thorough else QUICK_STAGED)
+    falsy = sum(1 for c, _o in staged for _k, vals in c["staged"]["params"] for v in vals if not v)
+    ck.notes["staged_studies"] = {"studies": len(staged), "instances": sum(len(c["nodes"]) for c, _o in staged),
+                                  "falsy_parameter_values_in_tables": falsy,
+                                  "rows_with_a_falsy_value": sum(1 for c, _o in staged for nd in c["nodes"]
+                                                                 if any(v in ("0", "0.0", "False", "", "None")
+                                                                        for _k, v in nd["params"]))}
+    obs.extend(staged)
     phase("implementation")
     usable = classify(ck, "C12", obs)
     phase("coq-cases")
@@ -1493,7 +1763,7 @@ def run(ck):
     # (c) renderers on in-H12 tables
     nrender = THOROUGH_RENDER if thorough else QUICK_RENDER
     rendered = 0
-    rbad = 0
+    rbad = npath = pbad = 0
     t_r = time.time()
     for c, o in usable:
         if rendered >= nrender:
@@ -1505,12 +1775,40 @@ def run(ck):
         if len(c["nodes"]) > 12 and rendered % 10:
             continue
         rendered += 1
-        for lay, exc in render_smoke(o["table"], os.path.join(WORKDIR, "out", "study_20240102-030405")):
+        import copy
+        pristine = copy.deepcopy(o["table"])
+        smoke = render_smoke(o["table"], os.path.join(WORKDIR, "out", "study_20240102-030405"))
+        if o["table"] != pristine or list(o["table"].keys()) != list(pristine.keys()):
+            pbad += 1
+            if pbad <= 3:
+                ck.violation("rendering CHANGED the dictionary Conductor.get_status returned (columns lost: %s)"
+                             % ([k for k in pristine if k not in o["table"]],), strip_case(c))
+            o["table"].clear()
+            o["table"].update(pristine)
+        for lay, exc in smoke:
             rbad += 1
             if rbad <= 3:
                 ck.violation("maestro status renderer '%s' raised on a table within H12: %s" % (lay, exc),
                              strip_case(c))
+        # the status command's path on the SAME dict, the layouts in every order (cycled over the tables)
+        try:
+            orders = list(itertools.permutations(["flat", "legacy", "narrow"]))
+            for order in (orders if rendered <= 6 else [orders[rendered % 6]]):
+                pp = render_path_problems(o["table"], o["recs"], order, "/x/study_20240102-030405")
+                npath += 1
+                if pp:
+                    pbad += 1
+                    if pbad <= 3:
+                        ck.violation("the status command's path (Conductor.get_status -> layouts %s on the same table) "
+                                     "does not reproduce the table: %s" % ("/".join(order), "; ".join(pp[:3])),
+                                     strip_case(c))
+                    break
+        except Exception as e:
+            pbad += 1
+            if pbad <= 3:
+                ck.violation("the status command's path raised %s: %s" % (type(e).__name__, str(e)[:200]), strip_case(c))
     ck.notes["renderers"] = {"tables_rendered_in_every_layout": rendered, "raised": rbad,
+                             "layout_sequences_on_one_table": npath, "sequences_with_problems": pbad,
                              "seconds": round(time.time() - t_r, 1)}
     ck.count("renderers", nontrivial=False, n=rendered)
 
@@ -1521,6 +1819,18 @@ def run(ck):
     # (b') Timeout branches against the model (thorough: the code's real 10 s)
     check_timeout_scenario(ck, real_timeout=thorough)
     phase("timeout-scenario")
+
+    # (b'') a reader holds the lock briefly exactly while the first / a middle / the last poll writes
+    bsum, bprob = brief_holder_polls(ck.seed)
+    ck.notes["brief_lock_holder"] = bsum
+    ck.count("brief-holder", nontrivial=True, n=3)
+    if bprob and bprob.startswith("harness:"):
+        ck.mismatch("the brief-holder scenario could not be observed: " + bprob, None)
+    elif bprob:
+        ck.violation("a poll's status write is lost to a concurrent `maestro status`: " + bprob,
+                     {"brief_holder": bsum, "how": "a process holds FileLock(<dir>/.status.lock) for %.2f s while "
+                      "ExecutionGraph.write_status(<dir>) is called for three successive polls" % bsum["hold_s"]})
+    phase("brief-holder")
 
     # (b) the real lock
     secs = THOROUGH_STRESS_S if thorough else QUICK_STRESS_S
@@ -1549,6 +1859,11 @@ def run(ck):
         "poll the real write_status + Conductor.get_status run; one case per poll = (graph, the implementation's own "
         "records, status.csv, returned dict, adapter submissions so far); distinct by that tuple, non-trivial once a "
         "job was submitted.")
+    ck.cov["rule"] += (
+        " Staged stream: parameter tables (1-3 keys x 1-4 values drawn from 0, 0.0, False, '', None, ints, floats, "
+        "bools, strings; mixed types) and 1-4 steps go through the real ParameterGenerator -> Combination -> "
+        "Study.stage() -> ExecutionGraph.add_step -> write_status; the parameters a row must show are read off "
+        "the instance's SUBMITTED command (<<K=$(K)>> markers), not off the record.")
     ck.cov["rule"] += (
         " Status-CLI stream: 2-3 generated studies (distinct fixed-width step names) written by the real writer "
         "into separate directories; the real `maestro status [--layout L] dirA dirB [dirC]` and the single-directory "
@@ -1607,6 +1922,23 @@ def replay(ck, path):
     os.makedirs(WORKDIR, exist_ok=True)
     doc = json.load(open(path))
     case = doc.get("case", doc)
+    if isinstance(case, dict) and "staged" in case:
+        o = run_staged(case["staged"], os.path.join(WORKDIR, "replay_staged"))
+        print("parameter table:", json.dumps(case["staged"]["params"]), "steps:", json.dumps(case["staged"]["steps"]))
+        print("implementation: status.csv =", repr(o["text"]))
+        if o["error"]:
+            print("implementation error:", o["error"])
+            return 1
+        print("parameters read off the SUBMITTED commands, per instance:",
+              json.dumps([[r["name"], r["params"]] for r in o["recs"] if r is not None]))
+        lit = g_case(o)
+        res = {}
+        for fn in ("case_agrees", "case_monitor"):
+            out = common.coq_eval("C12_replay", HEADER, "%s %s" % (fn, lit))
+            res[fn] = "true" in out.split(":")[0]
+        print("verdict: status.csv / get_status = model on the submitted parameters: %s; monitor C12_ok: %s"
+              % (res["case_agrees"], res["case_monitor"]))
+        return 0 if all(res.values()) else 1
     if isinstance(case, dict) and "cli" in case:
         probs, n = cli_group_problems(case["cli"], os.path.join(WORKDIR, "cli_replay"))
         print("studies written by the real writer into:", os.path.join(WORKDIR, "cli_replay"),
@@ -1652,6 +1984,10 @@ def replay(ck, path):
         return rc
     if not (isinstance(case, dict) and "nodes" in case and "ops" in case):
         print("replay: %s holds no graph case (kind=%s): %s" % (path, doc.get("kind"), doc.get("what")))
+        if isinstance(case, dict) and "brief_holder" in case:
+            bsum, bprob = brief_holder_polls(ck.seed)
+            print("brief-holder re-run:", json.dumps(bsum), "problem:", bprob)
+            return 1 if bprob else 0
         if isinstance(case, dict) and "stress" in case:
             summary, fb = stress(10.0, ck.seed)
             print("stress re-run:", json.dumps(summary), "first bad:", fb)
